@@ -9,6 +9,12 @@ proof  : lean/Pyunicorn/Properties/C04.lean — `eval_relabel` (every expression
 tie    : correspondence — catalogue expressions (exact rationals) == implementation on each
          graph; the model's `relabel` == `Network.permuted_copy`; expressions evaluated on
          the relabelled model == implementation on the permuted copy.
+         Round 3: the models of the other properties (C03 `Net`, C11 `Cross`, C18 `Circuit`, C12
+         `Geo`, C07 `Recurrence`) evaluated by the driver on the *renumbered* input (`Relabel.mat`,
+         `vec`, `cols`, `rows`, node lists through `Relabel.nodes`) == the implementation on
+         `permuted_copy(perm)` / on the object rebuilt from the renumbered arrays — the theorems
+         `net_*`, `cross_*`, `res_*`, `geo_*`, `rec_*` of Properties/C04.lean say that these model
+         values are the renumbered old ones.
 search : the property itself on the implementation, generically: every public measure of
          Network / SpatialNetwork / GeoNetwork / InteractingNetworks (node-list arguments
          renumbered) / ResNetwork on `net` vs on the permuted network: arrays of shape (N,)
@@ -120,6 +126,170 @@ def parse_model(ans):
     return out
 
 
+
+# ---------------------------------------------------------------------------------------
+# round 3: models of the other properties on the renumbered input == implementation on the
+# renumbered object
+# ---------------------------------------------------------------------------------------
+
+def _tok(t):
+    if t == "nan":
+        return float("nan")
+    if t == "inf":
+        return float("inf")
+    return float(Fraction(t))
+
+
+def parse_sections(ans):
+    """driver answer `a|b|...`, each section a vector `x,y` or a matrix `x,y;z,w` -> flat floats"""
+    out = []
+    for sec in ans.split("|"):
+        if sec == "-" or sec == "":
+            out.append([])
+        elif sec in ("ginv", "not-ginv", "no-pinv"):
+            out.append(sec)
+        else:
+            out.append([_tok(t) for row in sec.split(";") for t in row.split(",") if t != "-"])
+    return out
+
+
+def flat(v):
+    return np.asarray(v, dtype=float).reshape(-1).tolist()
+
+
+def attempt(fn, *a, **k):
+    try:
+        return flat(quiet(fn, *a, **k))
+    except Exception:  # noqa
+        return None
+
+
+def enc_optmat(D):
+    return ";".join(",".join("x" if np.isinf(x) else enc_rat(Fraction(float(x))) for x in row)
+                    for row in D) or "-"
+
+
+def net_request(A, directed, w, perm):
+    return (f"net {','.join(map(str, perm))} {int(directed)} {enc_boolmat(A)} "
+            f"{enc_rats([Fraction(float(x)) for x in w])}")
+
+
+def impl_net(pnet, directed, connected):
+    """the 22 sections of `netRelabelled`, `None` where the implementation's notion differs
+    (undirected notions on directed networks, closeness on unconnected ones)"""
+    und = not directed
+    n = pnet.N
+    sec = [attempt(pnet.indegree), attempt(pnet.outdegree), attempt(pnet.degree),
+           attempt(pnet.bildegree), attempt(pnet.local_cyclemotif_clustering),
+           attempt(pnet.local_midmotif_clustering), attempt(pnet.local_inmotif_clustering),
+           attempt(pnet.local_outmotif_clustering),
+           attempt(pnet.local_clustering) if und else None,
+           attempt(pnet.transitivity) if und else None,
+           attempt(pnet.matching_index) if und else None,
+           attempt(pnet.path_lengths),
+           attempt(pnet.global_efficiency) if und else None,
+           attempt(pnet.average_path_length) if und else None,
+           attempt(pnet.diameter) if und and pnet.n_links > 0 else None,
+           attempt(pnet.closeness) if und and connected and n > 1 else None,
+           attempt(pnet.nsi_closeness) if und else None,
+           attempt(pnet.coreness),
+           attempt(pnet.nsi_indegree), attempt(pnet.nsi_outdegree), attempt(pnet.nsi_degree),
+           attempt(pnet.nsi_local_clustering) if und else None]
+    return sec
+
+
+def cross_request(A, w, D, L1, L2, perm):
+    return (f"cross {','.join(map(str, perm))} 0 {enc_boolmat(A)} "
+            f"{enc_rats([Fraction(float(x)) for x in w])} {','.join(map(str, L1))} "
+            f"{','.join(map(str, L2))} {enc_optmat(D)}")
+
+
+def impl_cross(A, w, L1, L2, perm):
+    from pyunicorn.core import InteractingNetworks
+    idx = np.array(perm)
+    inv = np.argsort(idx)
+    P1, P2 = [int(inv[k]) for k in L1], [int(inv[k]) for k in L2]
+    b = InteractingNetworks(adjacency=A[idx][:, idx], node_weights=w[idx], silence_level=3)
+    return [P1, P2, attempt(b.cross_degree, P1, P2), attempt(b.cross_link_density, P1, P2),
+            attempt(b.number_cross_links, P1, P2), attempt(b.cross_transitivity, P1, P2),
+            attempt(b.cross_local_clustering, P1, P2), attempt(b.cross_global_clustering, P1, P2),
+            attempt(b.cross_average_path_length, P1, P2), attempt(b.cross_closeness, P1, P2),
+            attempt(b.number_internal_links, P1), attempt(b.internal_link_density, P1),
+            attempt(b.internal_average_path_length, P1), attempt(b.internal_closeness, P1),
+            attempt(b.internal_global_clustering, P1),
+            attempt(b.nsi_cross_degree, P1, P2), attempt(b.nsi_cross_local_clustering, P1, P2),
+            attempt(b.nsi_cross_transitivity, P1, P2), attempt(b.nsi_cross_mean_degree, P1, P2),
+            attempt(b.nsi_cross_edge_density, P1, P2),
+            attempt(b.nsi_cross_global_clustering, P1, P2),
+            attempt(b.nsi_cross_closeness_centrality, P1, P2)]
+
+
+def res_request(A, R, perm):
+    Rq = [[Fraction(float(x)) for x in row] for row in R]
+    return f"res {','.join(map(str, perm))} {enc_boolmat(A)} {enc_ratmat(Rq)}"
+
+
+def impl_res(R, perm):
+    from pyunicorn.core import ResNetwork
+    idx = np.array(perm)
+    n = len(perm)
+    b = ResNetwork(R[idx][:, idx], silence_level=3)
+    er = [[float(quiet(b.effective_resistance, i, j)) for j in range(n)] for i in range(n)]
+    return ["ginv", flat(er),
+            [float(quiet(b.effective_resistance_closeness_centrality, i)) for i in range(n)],
+            attempt(b.average_effective_resistance), attempt(b.admittive_degree),
+            attempt(b.average_neighbors_admittive_degree), attempt(b.local_admittive_clustering),
+            attempt(b.global_admittive_clustering), None,
+            [float(quiet(b.vertex_current_flow_betweenness, i)) for i in range(n)],
+            attempt(b.edge_current_flow_betweenness)]
+
+
+def geo_request(A, directed, pos, D, perm):
+    X = [[Fraction(float(x)) for x in pos[:, k]] for k in range(pos.shape[1])]
+    Aq = [[Fraction(int(x)) for x in row] for row in A]
+    Dq = [[Fraction(float(x)) for x in row] for row in D]
+    return (f"geo {','.join(map(str, perm))} {int(directed)} {pos.shape[1]} {enc_ratmat(X)} "
+            f"{enc_ratmat(Aq)} {enc_ratmat(Dq)}")
+
+
+def impl_geo(psn):
+    D = quiet(psn.grid.euclidean_distance).astype(float)
+    return [flat(D * D), attempt(psn.average_link_distance, False),
+            attempt(psn.average_link_distance, True), attempt(psn.outaverage_link_distance, False),
+            attempt(psn.inaverage_link_distance, False), attempt(psn.max_link_distance)]
+
+
+def rec_request(x, metric, thr, perm):
+    emb = ";".join(",".join(enc_rat(Fraction(float(v))) for v in row) for row in x)
+    return f"rec {','.join(map(str, perm))} {metric} {enc_rat(Fraction(float(thr)))} 0 {emb}"
+
+
+def compare_sections(kind, ans, impl, tol):
+    """-> (number of values compared, list of mismatch descriptions)"""
+    mv = parse_sections(ans)
+    bad, nvals = [], 0
+    if len(mv) < len(impl):
+        return 0, [f"{kind}: model answered {len(mv)} sections for {len(impl)}: {ans[:120]}"]
+    for k, iv in enumerate(impl):
+        if iv is None:
+            continue
+        if isinstance(iv, str):
+            nvals += 1
+            if mv[k] != iv:
+                bad.append(f"{kind} section {k}: model={mv[k]} expected={iv}")
+            continue
+        if len(iv) != len(mv[k]):
+            bad.append(f"{kind} section {k}: {len(mv[k])} model values for {len(iv)}")
+            continue
+        for pos_, (a, b) in enumerate(zip(iv, mv[k])):
+            if a != a:
+                continue
+            nvals += 1
+            if not close(a, b, tol):
+                bad.append(f"{kind} section {k}[{pos_}]: impl={a} model={b}")
+                break
+    return nvals, bad
+
 # ---------------------------------------------------------------------------------------
 # generic equivariance oracle on the implementation
 # ---------------------------------------------------------------------------------------
@@ -136,7 +306,7 @@ SKIP = {"cache_clear", "copy", "undirected_copy", "permuted_copy", "splitted_cop
         "nsi_degree_cumulative_histogram", "print_admittance", "get_admittance", "sparse_admittance",
         "set_random_links_by_distance", "randomly_rewire_geomodel_I", "randomly_rewire_geomodel_II",
         "randomly_rewire_geomodel_III", "set_node_weight_type", "save_for_cgv", "Load",
-        "link_distance_distribution", "inaverage_link_distance", "outaverage_link_distance",
+        "link_distance_distribution",
         "area_weighted_connectivity_distribution", "inarea_weighted_connectivity_distribution",
         "outarea_weighted_connectivity_distribution",
         "area_weighted_connectivity_cumulative_distribution",
@@ -246,6 +416,16 @@ def equivariance(ctx, cname, make, perm, measures, n, replay_base, variants=Fals
         shown = m if not kw else f"{m}({', '.join(f'{k}={v!r}' for k, v in kw.items())})"
         if "w" in kw.values() and net.n_links == 0:
             continue
+        if kw.get("parallelize"):
+            # each call forks a process pool (seconds on a loaded machine): a bounded number of
+            # (graph, permutation) pairs per run takes this path; the pool split itself is C19's
+            left = getattr(ctx, "_pool_calls_left", None)
+            if left is None:
+                left = 3 if ctx.tier == "quick" else 40
+            if left <= 0:
+                ctx.count(f"{cname}:parallelize-variant-not-run")
+                continue
+            ctx._pool_calls_left = left - 1
         try:
             v = quiet(getattr(net, m), **kw)
         except Exception:  # noqa
@@ -395,26 +575,51 @@ def run(ctx):
             p_impl = impl_catalogue(pn, directed, connected, Wp, pg0, pg1)
             reqs.append(request("evalrelabel", net, W, g0, g1, extra=",".join(map(str, perm)) + " "))
             meta.append(("evalrelabel", gi, perm, p_impl))
+            # round 3: the C03 / C11 / C12 models on the renumbered input == permuted_copy
+            reqs.append(net_request(A, directed, w, perm))
+            meta.append(("net", gi, perm, impl_net(pnet, directed, connected)))
+            if not directed and n >= 3:
+                L1 = [i for i in range(n) if g0[i]]
+                L2 = [i for i in range(n) if not g0[i]]
+                reqs.append(cross_request(A, w, D, L1, L2, perm))
+                meta.append(("cross", gi, perm, impl_cross(A, w, L1, L2, perm)))
+            if A.sum() > 0:
+                D0 = quiet(mk_spatial(None).grid.euclidean_distance)
+                reqs.append(geo_request(A, directed, pos, D0, perm))
+                meta.append(("geo", gi, perm, impl_geo(mk_spatial(perm))))
             # generic oracle on the implementation
             # non-default call patterns on a sample of the (graph, permutation) pairs in the quick tier
             equivariance(ctx, "Network", mk_net, perm, meas["Network"], n, base,
                          variants=(not quick) or rng.random() < 0.12)
             if A.sum() > 0:
+                # round 3: non-default call patterns (geometry_corrected=True, ...) of the
+                # spatial / geo measures as well; they are cheap, so on every pair
                 equivariance(ctx, "SpatialNetwork", mk_spatial, perm,
                              [m for m in meas["SpatialNetwork"] if m not in meas["Network"]], n,
-                             dict(base, positions=pos.tolist()))
+                             dict(base, positions=pos.tolist()), variants=True)
                 equivariance(ctx, "GeoNetwork", mk_geo, perm,
                              [m for m in meas["GeoNetwork"] if m not in meas["SpatialNetwork"]], n,
-                             dict(base, lat=lat.tolist(), lon=lon.tolist()))
+                             dict(base, lat=lat.tolist(), lon=lon.tolist()), variants=True)
             # node-list arguments are renumbered with the network
             if not directed and n >= 3:
                 interacting(ctx, A, w, W, g0, perm, base)
             if not directed and connected and n >= 3 and gi % 3 == 0:
-                resistive(ctx, A, perm, rng, base)
-    timeseries_networks(ctx)
+                Rres = resistive(ctx, A, perm, rng, base)
+                if n <= 8:
+                    reqs.append(res_request(A, Rres, perm))
+                    meta.append(("res", gi, perm, impl_res(Rres, perm)))
+    timeseries_networks(ctx, reqs, meta)
     model = common.driver(ctx.pid, reqs)
     bad_rel, bad_eval, nvals = [], [], 0
+    TOL = {"net": 1e-9, "cross": 1e-9, "res": 1e-6, "geo": 1e-5, "rec": 0.0}
+    r3_vals = {k: 0 for k in TOL}
+    r3_bad = {k: [] for k in TOL}
     for ans, (kind, gi, perm, impl) in zip(model, meta):
+        if kind in TOL:
+            nv, bad = compare_sections(kind, ans, impl, TOL[kind])
+            r3_vals[kind] += nv
+            r3_bad[kind] += [f"graph#{gi} perm={perm} {b}" for b in bad]
+            continue
         if kind == "relabel":
             if ans != impl:
                 bad_rel.append(f"graph#{gi} perm={perm}: model={ans[:150]} impl={impl[:150]}")
@@ -441,9 +646,23 @@ def run(ctx):
                    f"permuted copies ({nvals} values)", "correspondence", not bad_eval,
                    "\n".join(bad_eval[:8]))
     ctx.extra["values_compared"] = nvals
+    names = {"net": "C03 model `Net` (degrees, motif clustering, matching index, BFS distances, path "
+                    "measures, coreness peeling, n.s.i. degree / clustering / closeness)",
+             "cross": "C11 model `Cross` (cross / internal measures with node lists renumbered by "
+                      "`Relabel.nodes`)",
+             "res": "C18 model `Circuit` (effective resistance via certified pseudo-inverses, closeness, "
+                    "average, admittive degree / clustering; `isGinv` hypothesis of res_effRes_relabel)",
+             "geo": "C12 model `Geo` (squared grid distances of renumbered coordinates, link-distance "
+                    "measures)",
+             "rec": "C07 model `Recurrence` (recurrence-network adjacency of reordered state vectors)"}
+    for k in TOL:
+        ctx.obligation(f"correspondence: {names[k]} on the renumbered input == implementation on the "
+                       f"renumbered object ({r3_vals[k]} values)", "correspondence", not r3_bad[k],
+                       "\n".join(r3_bad[k][:6]))
+    ctx.extra["round3_values_compared"] = r3_vals
 
 
-def timeseries_networks(ctx):
+def timeseries_networks(ctx, reqs, meta):
     """recurrence-type networks: renumbering the nodes = reordering the state vectors.  Without
     time-delay embedding a (joint / inter-system) recurrence network of the reordered states must
     be the renumbered network, for every network measure (the line-based RQA measures of the
@@ -497,6 +716,10 @@ def timeseries_networks(ctx):
                                                 threshold=(thr, thr, thr + 0.5), silence_level=3)
         equivariance(ctx, "RecurrenceNetwork", mk_rn, perm,
                      own(RecurrenceNetwork, RecurrencePlot), n, dict(base, cls="RecurrenceNetwork"))
+        # round 3: the C07 model on the reordered state vectors == the implementation
+        reqs.append(rec_request(x, metric, thr, perm))
+        meta.append(("rec", f"ts{rep}", tuple(perm),
+                     [flat(np.asarray(mk_rn(perm).adjacency, dtype=float))]))
         # fixed-rate variants on the same (heavily tied) distances: the global quantile gives an
         # undirected, the row-wise quantile a directed network; both must commute with reordering
         rate = rng.choice([0.25, 0.4, 0.55])
@@ -545,36 +768,58 @@ def interacting(ctx, A, w, W, g0, perm, base):
                  "cross_adjacency", "cross_path_lengths", "cross_transitivity_sparse",
                  "cross_local_clustering_sparse", "cross_global_clustering_sparse",
                  "nsi_cross_edge_density", "nsi_cross_global_clustering",
-                 "nsi_cross_closeness_centrality", "cross_link_attribute"):
+                 "nsi_cross_closeness_centrality", "cross_link_attribute",
+                 "cross_indegree", "cross_outdegree", "total_cross_degree", "cross_degree_density",
+                 "average_cross_closeness", "local_efficiency", "global_efficiency",
+                 "nsi_cross_average_path_length", "nsi_cross_betweenness",
+                 # measures of one group (round 3)
+                 "internal_adjacency", "internal_path_lengths", "number_internal_links",
+                 "internal_link_density", "internal_global_clustering",
+                 "internal_average_path_length", "internal_degree", "internal_indegree",
+                 "internal_outdegree", "internal_closeness", "internal_betweenness",
+                 "nsi_internal_degree", "nsi_internal_local_clustering",
+                 "nsi_internal_closeness_centrality", "internal_link_attribute"):
+        if not hasattr(InteractingNetworks, name):
+            continue
         args_a, args_b = (L1, L2), (P1, P2)
         if name == "cross_link_attribute":
             args_a, args_b = ("w", L1, L2), ("w", P1, P2)
-        try:
-            va = quiet(getattr(a, name), *args_a)
-        except Exception:  # noqa
-            ctx.count("InteractingNetworks:raises")
-            continue
-        try:
-            vb = quiet(getattr(b, name), *args_b)
-        except Exception as ex:  # noqa
-            ctx.fail({"kind": "raises-on-permuted", "class": "InteractingNetworks", "measure": name},
-                     f"InteractingNetworks.{name} raises {type(ex).__name__} on the renumbered network",
-                     dict(base, measure=name, permutation=list(perm), node_list1=L1, node_list2=L2))
-            continue
-        ctx.count("InteractingNetworks:measures-compared")
-        # results are indexed by position in the node lists, which correspond one to one —
-        # except per-node arrays over the whole network, which are permuted
-        if np.asarray(va).shape == (n,) and len(L1) != n:
-            va = np.asarray(va)[idx]
-        if not same_val(va, vb):
-            ctx.fail({"kind": "not-equivariant", "class": "InteractingNetworks", "measure": name},
-                     f"InteractingNetworks.{name}(L1, L2) changes when nodes and node lists are renumbered",
-                     dict(base, measure=name, permutation=list(perm), node_list1=L1, node_list2=L2,
-                          expected=np.asarray(va, dtype=float).round(6).tolist(),
-                          observed=np.asarray(vb, dtype=float).round(6).tolist()))
+        elif name == "internal_link_attribute":
+            args_a, args_b = ("w", L1), ("w", P1)
+        elif "internal" in name:
+            args_a, args_b = (L1,), (P1,)
+        # round 3: the non-default call patterns too (link_attribute="w", flipped booleans)
+        for kw in [{}] + (arg_variants(InteractingNetworks, name) if A.sum() > 0 else []):
+            shown = name if not kw else f"{name}({', '.join(f'{k}={v!r}' for k, v in kw.items())})"
+            try:
+                va = quiet(getattr(a, name), *args_a, **kw)
+            except Exception:  # noqa
+                ctx.count("InteractingNetworks:raises")
+                continue
+            try:
+                vb = quiet(getattr(b, name), *args_b, **kw)
+            except Exception as ex:  # noqa
+                ctx.fail({"kind": "raises-on-permuted", "class": "InteractingNetworks", "measure": name},
+                         f"InteractingNetworks.{shown} raises {type(ex).__name__} on the renumbered network",
+                         dict(base, measure=name, kwargs=kw, permutation=list(perm), node_list1=L1,
+                              node_list2=L2))
+                continue
+            ctx.count("InteractingNetworks:measures-compared" + (":non-default-args" if kw else ""))
+            # results are indexed by position in the node lists, which correspond one to one —
+            # except per-node arrays over the whole network, which are permuted
+            if np.asarray(va).shape == (n,) and len(L1) != n:
+                va = np.asarray(va)[idx]
+            if not same_val(va, vb):
+                ctx.fail({"kind": "not-equivariant", "class": "InteractingNetworks", "measure": name},
+                         f"InteractingNetworks.{shown}(L1, L2) changes when nodes and node lists are "
+                         f"renumbered",
+                         dict(base, measure=name, kwargs=kw, permutation=list(perm), node_list1=L1,
+                              node_list2=L2, expected=np.asarray(va, dtype=float).round(6).tolist(),
+                              observed=np.asarray(vb, dtype=float).round(6).tolist()))
 
 
 def resistive(ctx, A, perm, rng, base):
+    """-> the resistance matrix used (for the model correspondence)"""
     from pyunicorn.core import ResNetwork
     n = A.shape[0]
     idx = np.array(perm)
@@ -607,3 +852,4 @@ def resistive(ctx, A, perm, rng, base):
             ctx.fail({"kind": "not-equivariant", "class": "ResNetwork", "measure": name},
                      f"ResNetwork.{name} is not equivariant under renumbering",
                      dict(base, measure=name, permutation=list(perm), resistances=R.tolist()))
+    return R
